@@ -46,7 +46,7 @@ func (P) Describe() harness.Description {
 		MustHit: []string{"blocked_probe_handed_the_breaker_back", "straggler_from_the_closed_period_in_flight", "window_counts_checked_after_concurrent_rollover", "half_open_timing_checked", "probe_exclusivity_checked", "open_period_checked", "transition_overlaps_other_caller"},
 		Level:   "exploration",
 		Rule: "case = (one breaker of any strategy with small minimum amount and retry timeout, sequential prelude leaving it fresh / near trip / open just before its deadline / half-open with a held probe; 2-3 callers with 1-4 Entry / complete operations each; tick plan around the retry timeout). The scheduler interleaves at every atomic access of TryPass, OnRequestComplete and the transition helpers. " +
-			"History oracles stamped with event sequence numbers: (a) the multiset of listener events is a legal path from the prelude state to the final state (each transition once, correct previous state); (b) every Open->HalfOpen happens >= retry timeout after the invocation of the earliest call that could have opened the breaker for that open period; (c) with no probe number, after a passage to half-open no other request invoked afterwards is admitted and returns before the call that emits the next transition is invoked; (d) no request other than the probe is admitted wholly inside a certainly-open period. " +
+			"History oracles stamped with event sequence numbers: (a) the multiset of listener events is a legal path from the prelude state to the final state (each transition once, correct previous state); (b) every Open->HalfOpen happens >= retry timeout after the invocation of the earliest call that could have opened the breaker for that open period; (c) with no probe number, after a passage to half-open no other request invoked afterwards is admitted and returns before the call that emits the next transition is invoked; (d) no request other than the probe is admitted wholly inside a certainly-open period; (g) after a HalfOpen->Closed an error-count breaker (threshold >= 2) opens again only if at least threshold failed completions were not over before the closing call began and were invoked before the opening was reported. " +
 			"non-trivial = at least one transition happened while another caller was inside an operation; distinct = hash(config, ops, schedule)",
 		Assumptions: []string{"one breaker on the resource; the probe roll-back path is driven by a scripted rule-check slot behind the breaker slot (35 % of the cases)", "a probe blocked behind the breaker returns it to the open period it interrupted (retry timeout not renewed): a request probing right after that is not a violation", "facts are used as premises only when certain from invoke/return order; overlapping cases are skipped, never guessed", "the final state is read through the overlay-only accessor circuitbreaker.VerifBreakersOf"},
 		Real:        []string{"api.Entry/TraceError/Exit", "core/circuitbreaker (slot, stat slot, breakers, listeners)", "core/stat/base.LeapArray"},
